@@ -155,7 +155,8 @@ def build_objs(cfg, files, san="asan", extra=(), tag="", cc="gcc", opt="-O1"):
     for o, rc, out in res:
         if rc != 0:
             raise BuildError("compiling %s failed:\n%s" % (o, out[-3000:]))
-    _gc_cache("obj-", keep=6)
+    # (a coverage audit needs the .gcno / .gcda of every object directory of the run: C01 alone builds nine)
+    _gc_cache("obj-", keep=40 if COV else 6)
     return [o for o, _, _ in res]
 
 
